@@ -40,7 +40,7 @@ ASSUMPTIONS = ["atoms' declared separability is truthful (1->1 leaves separable,
 
 
 def _build(case):
-    frames = [G.frame_obj(f["name"], f["naxes"]) for f in case["frames"]]
+    frames = [G.frame_obj(f["name"], f["naxes"]) if f.get("obj", 1) is not None else f["name"] for f in case["frames"]]
     w = gw.WCS([(fr_, None if t is None else G.build(t)) for fr_, t in zip(frames, case["trs"])])
     if case.get("box"):
         b = tuple((float(G.fr(lo)), float(G.fr(hi))) for lo, hi in case["box"])
@@ -109,6 +109,15 @@ def impl(case):
     f = w.forward_transform
     nin, nout = f.n_inputs, f.n_outputs
     res = {"nin": nin, "nout": nout, "pixel_n_dim": w.pixel_n_dim, "world_n_dim": w.world_n_dim}
+    if w.output_frame is None:
+        # the output frame is only a name: gwcs supports the dimension counts (taken from the transforms) and the correlation matrix;
+        # the values interface needs frame objects and is not exercised
+        res["dims_only"] = True
+        try:
+            res["corr_shape"] = list(np.shape(w.axis_correlation_matrix))
+        except Exception as e:
+            res["corr_err"] = C.exc_enum(e)
+        return res
     res["p2w"] = [_vals(w.pixel_to_world_values, G.to_float_pt(p), nout) for p in case["pts"]]
     res["call"] = [_vals(w, G.to_float_pt(p), nout) for p in case["pts"]]
     res["ai2w"] = [_vals(w.array_index_to_world_values, G.to_float_pt(p)[::-1], nout) for p in case["pts"]]
@@ -216,6 +225,13 @@ def _oracle(case, res):
         if res["world_n_dim"] != res["n_outputs"]:
             out.append(("ndim", "world_n_dim %s != n_outputs %s" % (res["world_n_dim"], res["n_outputs"])))
         return out
+    if res.get("dims_only"):
+        if res["pixel_n_dim"] != res["nin"] or res["world_n_dim"] != res["nout"]:
+            out.append(("ndim", "output frame given by name: pixel_n_dim/world_n_dim %s/%s vs transform inputs/outputs %s/%s" %
+                        (res["pixel_n_dim"], res["world_n_dim"], res["nin"], res["nout"])))
+        if "corr_shape" in res and res["corr_shape"] != [res["nout"], res["nin"]]:
+            out.append(("ndim", "correlation matrix shape %s for a %d -> %d transform" % (res["corr_shape"], res["nin"], res["nout"])))
+        return out
     if res["p2w"] != res["call"] or res["p2w_out"] != res["call_out"]:
         out.append(("p2w", "pixel_to_world_values %s differs from plain evaluation %s" % (res["p2w"] + res["p2w_out"], res["call"] + res["call_out"])))
     if res["ai2w"] != res["p2w"]:
@@ -247,7 +263,7 @@ def request(case, res):
         return {"op": "toindex", "vals": [C.f2w(v) for v in case["vals"]]}
     if k == "shape":
         return {"op": "shape", "ndim": case["ndim"], "ops": [o for o in case["ops"] if o["k"] in ("pixel", "array")]}
-    if k == "fixed":
+    if k == "fixed" or res.get("dims_only"):
         return None
     return {"op": "api", "trs": [t for t in case["trs"] if t is not None], "pts": case["pts"], "world": case["world"]}
 
@@ -325,7 +341,8 @@ def gen(rng, tier):
         frames, trs, dims = G.gen_pipeline(rng, nsteps, invertible=invertible)
         for f in frames:
             f["obj"] = 1
-        frames = [frames[0], frames[-1]] if False else frames
+        if rng.random() < 0.25:
+            frames[-1]["obj"] = None        # the output frame given only by name: dimension counts come from the transforms
         pts = [_pt(rng, dims[0]) for _ in range(3)]
         # world points: images of other pixel points, so the inverse direction sees non-integral pixels
         world = []
